@@ -60,6 +60,18 @@ def cases(draw, closed_only, allow_verify):
         case["trees"][1] = dict(case["trees"][1], **{draw(st.sampled_from(["shared", "other-name"])): shared})
         case.update(index=True, wipe=True, dst_init=[0], request=[1], dst_files=[], src_missing=[],
                     fail=[], abort_at=None, src_kind=draw(st.sampled_from(["local", "generic"])))
+    if draw(st.integers(0, 24)) in (7, 13, 19):
+        # one object whose size sits exactly on / next to a power of two (batching, multipart and
+        # "large object" thresholds are sizes like these)
+        size = draw(st.sampled_from([2**20, 2**20 + 1, 2**23 - 1, 2**23, 2**23, 2**23 + 1]))
+        big = f"z:{size}:{draw(st.binary(min_size=1, max_size=3)).hex()}"
+        if draw(st.booleans()):
+            case["trees"][0] = dict(case["trees"][0], big=big)
+        else:
+            case["loose"] = [*case["loose"], big]
+            case["request"] = sorted({*case["request"], ntrees + len(case["loose"]) - 1})
+    # placement by hard link instead of copy (cache type hardlink); applies to hashfile.transfer() only
+    case["hardlink"] = draw(st.sampled_from([False, False, True]))
     if allow_verify and draw(st.integers(0, 3)) == 0:
         case["verify"] = True
         case["corrupt"] = sorted(draw(st.sets(st.integers(0, 15), min_size=1, max_size=2)))
@@ -337,6 +349,8 @@ def execute(case, ctx, d, monitor_closure=True):  # noqa: C901, PLR0912, PLR0915
             o.push_counts.append(do_push())
             return None
         kw = {"shallow": shallow, "jobs": case["jobs"], "verify": case["verify"]}
+        if case.get("hardlink"):
+            kw["hardlink"] = True
         if index is not None:
             kw["dest_index"] = index
         if not staging_mode:
@@ -389,6 +403,10 @@ def classes_of(case, o):
     cl = [f"src={case['src_kind']}", f"dst={case['dst_kind']}", f"form={case['form']}"]
     if case["index"]:
         cl.append("dest-index")
+    if case.get("hardlink") and not o.via_push:
+        cl.append("hardlink")
+    if any(len(v) >= 2**20 for v in o.bytes.values()):
+        cl.append("object-size-at-power-of-two(>=1MiB)")
     if getattr(o, "ref_groups", 0) >= 2:
         cl.append("source-on->=2-filesystem-objects")
     if o.inj.faulted:
